@@ -157,6 +157,11 @@ class Sched(object):
             self.line_codes[code] = base - code.co_firstlineno
             if name in MODEL_LISTING:
                 self.line_maps[code] = align_lines(getattr(R.rrulebase, name), MODEL_LISTING[name], base)
+        # the wrapper of the decorated mutators of rruleset (`inner_func` of `_invalidates_cache`, one code object for all four): its
+        # statements are pause points of a MUTATOR thread (labels 901, 902, … = line of the wrapper's body)
+        deco = getattr(getattr(R.rruleset, "rdate", None), "__code__", None)
+        if deco is not None and deco.co_name == "inner_func":
+            self.line_codes[deco] = 900 - deco.co_firstlineno
         self.entry_codes = {}
         for name in ENTRY_METHODS:
             code = getattr(R.rrulebase, name).__code__
